@@ -249,6 +249,7 @@ impl ISocket for RepSocket {
       }
     }
 
+    crate::verif_point!("rep.recv.checked");
     let rcvtimeo_opt = self.core_state_read().options.rcvtimeo;
     let (peer_info, payload_frames) = self.recv_complete_request(rcvtimeo_opt).await?;
     *self.state.lock() = RepState::ReceivedRequest(peer_info);
